@@ -310,6 +310,21 @@ def run_text(text):
     return parse_line(lines[0]) if lines else None
 
 
+def reference_is_deterministic(r, tries=6):
+    """The per-scene simple trackers are sequential; if they answer differently on identical input, the input contains
+    an exact tie (the voting engines then depend on HashMap iteration order) and the comparison with the batch tracker
+    says nothing about the property. Returns False when such a tie is demonstrated."""
+    seen = set()
+    for _ in range(tries):
+        x = run_text(case_text(r))
+        if x is None or x["type"] != "run":
+            continue
+        seen.add(json.dumps(x["simple"], sort_keys=True))
+        if len(seen) > 1:
+            return False
+    return True
+
+
 def shrink(r, key):
     """drop trailing batches, then whole scenes, while the same kind of failure persists (each candidate tried twice,
     the failure may depend on the schedule)"""
@@ -317,7 +332,7 @@ def shrink(r, key):
         for _ in range(2):
             x = run_text(case_text(rr))
             if x is not None and any(k == key for k, _ in oracle(x)):
-                return True
+                return key != "C06:refinement" or reference_is_deterministic(rr)
         return False
     cur = r
     budget = 24
@@ -374,6 +389,7 @@ def run(chk):
     hist = Counter()
     nontrivial = set()
     oracle_fail = []
+    ties_skipped = []
     probe_fail = []
     trace_inputs = []
     trace_err = []
@@ -391,6 +407,9 @@ def run(chk):
             if any(len(b) >= 2 for b in r["hist"]) and r["v"] >= 2 and nonserial(r):
                 nontrivial.add(case_text(r))
         bad = oracle(r)
+        if bad and bad[0][0] == "C06:refinement" and not reference_is_deterministic(r):
+            ties_skipped.append(i)
+            bad = []
         if bad:
             oracle_fail.append((i, bad))
         if r["status"] == "ok" and r["type"] == "run":
@@ -430,6 +449,7 @@ def run(chk):
         "trace_validation_failures": len(model_bad) + len(trace_err),
         "monitor_probe_failures": len(probe_fail),
         "spec_oracle_failures": len(oracle_fail),
+        "runs_skipped_exact_tie_in_reference": len(ties_skipped),
     })
 
     if oracle_fail:
@@ -493,6 +513,10 @@ def replay(chk, path):
         bad = oracle(r)
         if r["type"] == "probe" and r["early"]:
             bad.append(("C06:monitor", "monitor passed early"))
+        if bad and bad[0][0] == "C06:refinement" and not reference_is_deterministic(r, tries=12):
+            print("the per-scene simple tracker answers differently on this very input (exact tie in the voting stage):")
+            print("the comparison says nothing about the property; not a violation")
+            return 0
         if bad:
             worst = bad
             print(r["raw"][:600])
